@@ -60,11 +60,21 @@ def two_endpoints(run, n):
                 problems.append('setting %s: client local %r, server view %r' % (k.name, a, b))
         if c.streams[1].state_machine.state.name != 'HALF_CLOSED_LOCAL' or s.streams[1].state_machine.state.name != 'HALF_CLOSED_REMOTE':
             problems.append('stream 1 states: %s / %s' % (c.streams[1].state_machine.state.name, s.streams[1].state_machine.state.name))
-        # the rest of the handshake and the first exchange
+        # the settings must be IN FORCE on the server at once (the 101 response is their acknowledgement, RFC 7540 3.2.1): the server
+        # may answer stream 1 before it has read anything else from the client
+        if s.max_outbound_frame_size != c.local_settings.max_frame_size:
+            problems.append('server max_outbound_frame_size %r, client MAX_FRAME_SIZE %r' % (s.max_outbound_frame_size, c.local_settings.max_frame_size))
+        if s.encoder.header_table_size != c.local_settings.header_table_size:
+            problems.append('server encoder table size %r, client HEADER_TABLE_SIZE %r' % (s.encoder.header_table_size, c.local_settings.header_table_size))
+        if s.local_flow_control_window(1) != min(65535, c.local_settings.initial_window_size):
+            problems.append('server window for stream 1 is %r, client INITIAL_WINDOW_SIZE %r' % (s.local_flow_control_window(1), c.local_settings.initial_window_size))
+        # the rest of the handshake and the first exchange (in half of the pairs the server answers before reading the client's preface)
+        early = rnd.random() < 0.5
         try:
-            evs = s.receive_data(c.data_to_send())
-            c.receive_data(s.data_to_send())
-            s.send_headers(1, [(':status', '200')], end_stream=False)
+            if not early:
+                evs = s.receive_data(c.data_to_send())
+                c.receive_data(s.data_to_send())
+            s.send_headers(1, [(':status', '200'), ('x-a', 'b' * 40)], end_stream=False)
             s.send_data(1, b'hello', end_stream=True)
             evs = c.receive_data(s.data_to_send())
             names = [type(e).__name__ for e in evs]
